@@ -340,6 +340,7 @@ class Translator:
         self.arr_types = {}
         self.tmp_counter = 0
         self.outline = bool(self.cfg.get('outline_fp'))
+        self.outline_all = self.cfg.get('outline_fp') == 'all'
         self.fp_decls = {}
 
     # ------------------------------------------------------------------ type translation
@@ -1179,7 +1180,7 @@ class FunctionBody:
             return None
         atoms = []
         s = self.fp_struct(n, atoms)
-        if fpx.weight(s) == 0:
+        if fpx.weight(s, self.tr.outline_all) == 0:
             return None
         texts = [self.expr(a) for a in atoms]
         if all(re.match(r'^\(?(DBL_EPSILON|DBL_MAX|DBL_MIN|G_\w+|[-0-9.xa-fp+]+)\)?$', t) for t in texts):
@@ -1372,7 +1373,7 @@ class FunctionBody:
             atoms = []
             rs = self.fp_struct(r, atoms)
             s_ = (fpx.OPN[n['opcode'][0]], ('a',), rs)
-            if fpx.weight(s_) > 0:
+            if fpx.weight(s_, self.tr.outline_all) > 0:
                 le = self.expr(l)
                 call = self.fp_emit(s_, [le] + [self.expr(a) for a in atoms])
                 txt = '%s = %s' % (le, call)
